@@ -15,6 +15,75 @@ CHECKS = {
              "helpers run un-jitted (same source); process pools not exercised.",
         technique="property-based testing (Hypothesis) with reference model + controlled-scheduler schedule fuzzing",
     ),
+    "C03": dict(
+        category="exploration",
+        text="Generated dtypes (scalar / array-valued / titled fields, both time encodings) x law-abiding chunk "
+             "sequences x 4 compressors x rechunk on/off x serial / thread-pool saving and loading, driven directly "
+             "through the file-system backend; files are decoded by an independent decoder and every metadata clause "
+             "(n, nbytes, filesize, first/last times, ranges, run id, completion marker, file set) is recomputed "
+             "from the decoded rows; plus rechunk-on-load.",
+        design_ref="DESIGN.md §5 C03",
+        note="FileSytemBackend only; rechunking cases draw dtypes from a fixed menu (numba compile time per dtype); "
+             "boolean fields scalar only (numba cannot type nested boolean arrays).",
+        technique="property-based testing (Hypothesis) round trip + independent decoder / metadata recomputation",
+    ),
+    "C04": dict(
+        category="fault_enumeration",
+        text="Every mutating file-system operation of a generated scenario (index enumerated from a counting dry "
+             "run) x {OSError once, OSError sticky, process death before / after (forked child, os._exit)}; observer "
+             "= fresh Context without faults: everything reported stored loads completely and equals the whole-run "
+             "reference, a call that returned normally stored what the fault-free run stores, and the identical retry "
+             "succeeds without cleanup.",
+        design_ref="DESIGN.md §5 C04, §4",
+        note="Faults are injected at Python-level os / shutil / open / write calls under the storage directory; "
+             "process death is os._exit in a forked child; DataDirectory only; quick tier takes a spread of indices "
+             "containing every operation label, thorough / all_indices every index (<= 80, else 40 spread).",
+        technique="exhaustive fault-position enumeration (fs fault layer, fork-based crash) with reference-model observer",
+    ),
+    "C08": dict(
+        category="exploration",
+        text="Plugin.iter driven directly with stub dependencies: generated (1-4 dependencies, 1-3 kinds, "
+             "independent chunkings incl. zero-duration chunks, mismatch and straddle-chain modes) plus exhaustive "
+             "small-scope enumeration of all rows x all chunkings on a 6-point grid; validity predicate over the "
+             "recorded compute calls (identical interval for all inputs, same-kind merge, adjacency, every input row "
+             "exactly once in order, errors exactly where rows would be dropped).",
+        design_ref="DESIGN.md §5 C08",
+        note="The documented ten-pass error is tolerated only for genuine straddle chains of length >= 10; "
+             "save_when <= EXPLICIT leniency accepted as documented.",
+        technique="property-based testing + exhaustive small-scope enumeration with a validity predicate over histories",
+    ),
+    "C11": dict(
+        category="exploration",
+        text="An independent planner reference (which plugins run, what is loaded, what is saved per frontend, "
+             "which explicit error) written from the property text is compared with get_components, compute-call "
+             "counters, per-frontend directory diffs, returned rows and raised exceptions over generated graphs, "
+             "stored subsets in 1-2 filtered frontends, targets, save=, request modifiers and forbid_creation_of.",
+        design_ref="DESIGN.md §5 C11",
+        note="DataDirectory frontends only; call counts predicted only where chunk-count determined; time ranges "
+             "only with a single target (multi-target time ranges are C10 / F13).",
+        technique="property-based testing (Hypothesis) against a reference planner model",
+    ),
+    "C12": dict(
+        category="exploration",
+        text="Full matrix violation kind x plugin kind x position x processor (required cells enforced) plus random "
+             "cases: the k-th result of one plugin in an otherwise healthy generated graph is replaced by a "
+             "contract-violating one; the request must raise, delivered chunks must be a clean prefix of the "
+             "reference, the offending type and its descendants must not be left stored, everything else stored "
+             "must load and equal the reference.",
+        design_ref="DESIGN.md §5 C12",
+        note="Violations are injected at Plugin._fix_output; gap / overlap only for a requested target at chunk "
+             "index >= 1; threaded runs under the controlled scheduler.",
+        technique="fault-injection matrix + property-based testing with reference model",
+    ),
+    "C18": dict(
+        category="exploration",
+        text="Reference hit finder / record linker / reduction mask / baseline / integrate written from the "
+             "docstrings, compared field by field on generated pulses (1-3 channels, 1-3 fragments, all threshold "
+             "forms) and exhaustively on all short pulses over a 3-letter alphabet x all fragmentations x extensions.",
+        design_ref="DESIGN.md §5 C18",
+        note="NaN baseline_rms excluded; one dt per channel; extensions <= record length.",
+        technique="property-based testing + exhaustive small-scope enumeration vs reference model",
+    ),
     "C05": dict(
         category="exploration",
         text="Mailbox-only harness under a cooperative scheduler that owns every interleaving: random/PCT/targeted "
